@@ -445,7 +445,60 @@ def bounded(S):
                 S.bounded_check('eigen_sym33_unit/bounded-contract[%s,%s,%s]' % (cat, orient, mode),
                                 'real eigen routine: A = V diag(lam) V^T to 1e-9 relative, V orthonormal, lam ascending; magnitudes 1e-20..1e20',
                                 '%d tensors' % len(Cs), len(Cs), fails)
+    _bounded_near_spherical(S, TM)
     _bounded_jvp(S, TM)
+
+
+def _bounded_near_spherical(S, TM):
+    """nearly triple-repeated eigenvalues, A = c (I + eps D), D traceless of unit norm, eps in [1e-10, 1e-6]: the deviatoric part of the
+    reconstruction, of log A and of sqrt A (all of size eps) must be reproduced to 1e-3 of its own size (the routine achieves ~2e-15/eps)"""
+    rng = onp.random.default_rng(S.seed + 1214)
+    n = 60 if S.tier == 'quick' else 600
+    dev = lambda M: M - onp.trace(M) / 3 * onp.eye(3)
+    for mode in ('single-call', 'compiled-batch'):
+        As, meta = [], []
+        for k in range(n):
+            eps = 10 ** rng.uniform(-10, -6)
+            c = 10 ** rng.uniform(-3, 3)
+            d = rng.standard_normal(3)
+            d -= d.mean()
+            d /= onp.linalg.norm(d)
+            if k % 3 == 0:
+                th = rng.uniform(0, 2 * onp.pi)
+                R = onp.array([[onp.cos(th), -onp.sin(th), 0.], [onp.sin(th), onp.cos(th), 0.], [0., 0., 1.]])
+            else:
+                R = _rot(rng)
+            D = R @ onp.diag(d) @ R.T
+            D = 0.5 * (D + D.T)
+            As.append(c * (onp.eye(3) + eps * D))
+            meta.append((eps, c, D))
+        As = onp.array(As)
+        if mode == 'single-call':
+            fe, fl, fq = jax.jit(TM.eigen_sym33_unit), jax.jit(TM.log_symm), jax.jit(TM.sqrt_symm)
+            E = [fe(jnp.asarray(a)) for a in As]
+            ev, V = onp.array([onp.asarray(e[0]) for e in E]), onp.array([onp.asarray(e[1]) for e in E])
+            L = onp.array([onp.asarray(fl(jnp.asarray(a))) for a in As])
+            Q = onp.array([onp.asarray(fq(jnp.asarray(a))) for a in As])
+        else:
+            r = jax.jit(jax.vmap(TM.eigen_sym33_unit))(jnp.asarray(As))
+            ev, V = onp.asarray(r[0]), onp.asarray(r[1])
+            L = onp.asarray(jax.jit(jax.vmap(TM.log_symm))(jnp.asarray(As)))
+            Q = onp.asarray(jax.jit(jax.vmap(TM.sqrt_symm))(jnp.asarray(As)))
+        fails = []
+        for k, (eps, c, D) in enumerate(meta):
+            rec = V[k] @ onp.diag(ev[k]) @ V[k].T
+            refL = eps * D - eps ** 2 * (D @ D) / 2 + eps ** 3 * (D @ D @ D) / 3
+            refQ = onp.sqrt(c) * (eps * D / 2 - eps ** 2 * (D @ D) / 8)
+            errs = dict(reconstruction=onp.linalg.norm(dev(rec) - dev(As[k])) / onp.linalg.norm(dev(As[k])),
+                        log_symm=onp.linalg.norm(dev(L[k]) - dev(refL)) / onp.linalg.norm(dev(refL)),
+                        sqrt_symm=onp.linalg.norm(dev(Q[k]) - dev(refQ)) / onp.linalg.norm(dev(refQ)))
+            bad = {a: float(b) for a, b in errs.items() if not b < 1e-3}
+            if bad:
+                fails.append(dict(input=dict(mode=mode, case=k, seed=S.seed + 1214, scale=c, relative_gap=eps, A=As[k].tolist()),
+                                  observed='relative error of the deviatoric part: %s' % bad))
+        S.bounded_check('eigen_sym33_unit/bounded-nearly-triple-eigenvalues-keep-their-deviatoric-part[%s]' % mode,
+                        'A = c (I + eps D), eps in [1e-10, 1e-6], generic and in-plane orientations: deviatoric part of V diag(lam) V^T, log_symm(A), sqrt_symm(A) to 1e-3 of its own size',
+                        '%d tensors' % n, n, fails[:3])
 
 
 def _bounded_jvp(S, TM):
